@@ -508,6 +508,7 @@ func TestC16_P_SplitReadWriteStores(t *testing.T) {
 		if _, err := buildInto(upstream, upstream.LinkSystem(), 1); err != nil {
 			t.Fatalf("harness: %v", err)
 		}
+		target.Trusted = rapid.Bool().Draw(t, "trustedStorage") // (LinkSystem.TrustedStorage: loads are not re-hashed)
 		ls := target.LinkSystem()
 		ls.StorageReadOpener = upstream.openRead // reads come from upstream, writes go to target
 		var link datamodel.Link
@@ -530,7 +531,7 @@ func TestC16_P_SplitReadWriteStores(t *testing.T) {
 		if err := commitOrderOK(target, produced); err != nil {
 			t.Fatalf("C16 split stores (%s): %v", kind, err)
 		}
-		ev.Case(fmt.Sprintf("%s blocks=%s", kind, bucket(target.Len())), true, "kind:"+kind)
+		ev.Case(fmt.Sprintf("%s blocks=%s trusted=%v", kind, bucket(target.Len()), target.Trusted), true, "kind:"+kind, fmt.Sprintf("trusted-storage:%v", target.Trusted))
 		ev.Sample(map[string]any{"kind": kind, "blocks_written": target.Len(), "blocks_upstream": upstream.Len()})
 	})
 }
